@@ -22,6 +22,16 @@ CHECKS = {
   text="Proof: authenticated/owner_only/owner_write are modelled verbatim and their documented guarantees (nothing in foreign homes, no foreign write, nothing below depth 2, anonymous gets nothing) are theorems for all names and paths; re.escape is proved to yield a pattern that parses to a literal and full-matches exactly the name, so a user name cannot widen a `{user}` rule; from_file is proved to return the first applicable section. Tie: Rights.authorization of the really loaded back-ends vs the model driver, exhaustively over a small scope and on generated rights files, plus the model's regex engine vs Python re.",
   note="Trusted: Lean kernel, standard axioms; Python `re` agrees with the modelled regex subset (rule grammar; ASCII for \\w \\d \\s) as far as the run shows; configparser section order; LDAP groups empty; general `{user}`-inside-larger-template literalness is validated by an independent \\U-escape oracle, proved only for the `{user}` template.",
   ref="5/C04"),
+ "C02": dict(
+  technique="Lean 4 theorem: every storage call's file-system trace has a single commit point and every prefix of it abstracts to the before- or after-state (all names, any number of items) + syscall-level correspondence and exhaustive crash/fault injection at every mutating system call through an LD_PRELOAD interposer",
+  text="Proof: the data projection of the multifilesystem storage's system calls is modelled per storage call as a list of primitive operations on a partial-map file system; operations on temporary/cache/lock names provably never change what clients observe, each call has exactly one other operation, hence any crash prefix shows the state before or after. Tie: the real syscall log of each request type equals the model trace; the server is killed before each mutating call in turn (and each call failed with ENOSPC/EACCES/EIO), the folder re-opened by a fresh Application and dumped: it must be the before/after state the model's commit position predicts, verify() passes, follow-up requests succeed.",
+  note="Trusted: Lean kernel, standard axioms; interposer and log canonicalisation; kernel atomicity of rename/RENAME_EXCHANGE/unlink/mkdir/rmdir; cache trees are outside the model (invisible by construction of abs); power loss is C12's subject.",
+  ref="5/C02"),
+ "C12": dict(
+  technique="Lean 4 theorem: the sync-ordering monitor accepts the trace of every storage call with fsync enabled (all names; induction over the item list for bulk uploads) + equality of the real syscall log's data projection with the model trace; the Lean monitor is also evaluated on the observed trace",
+  text="Proof: the durability rule (written files fsynced before a rename makes them visible, directories with changed visible entries fsynced afterwards, nothing pending at the end) is a decidable monitor over operation traces; it is proved to accept the model trace of upload, set_meta, delete, move, create_collection (any n items), makedirs. Tie: per request type and configuration the interposer's log, reduced to operations outside cache/lock and with temporary names renumbered, must equal the model trace; the same Lean monitor (driver) and an independent Python monitor run on the observed trace.",
+  note="Trusted: Lean kernel, standard axioms; interposer + canonicaliser; what the disk does with fsync; cache/temporary files exempt as the property states.",
+  ref="5/C12"),
 }
 
 NA_REASON = "check not built yet (work in progress; see DESIGN.md section 5 for the plan)"
